@@ -97,7 +97,11 @@ func c01Reattach(r *Run) {
 // c01Websocket: the pairing rounds over the library's websocket transport (the only shipped transport
 // that serialises envelopes to bytes): many callers at once, each with its own request of 2 to 16 KiB;
 // every caller gets F(its own request) and the handler ran exactly once per request.
-func c01Websocket(r *Run) {
+func c01Websocket(r *Run) { c01WebsocketWith(r, 24, 2048, 16*1024) }
+
+// c01WebsocketWith: the same with other sizes (C05 runs it with a few callers and bodies up to 1 MiB: an
+// envelope larger than the socket takes at once stays in the transport's hands for a while).
+func c01WebsocketWith(r *Run, callers, minSize, maxSize int) {
 	if !r.Want("websocket") {
 		return
 	}
@@ -125,13 +129,13 @@ func c01Websocket(r *Run) {
 	cc := goat.NewClientConn(goat.NewGoatOverWebsocket(p.cli), "c0", "srv")
 	defer cc.Close()
 	rng := r.Rand("c01.websocket")
-	rounds, callers := r.Scale(3, 40), 24
+	rounds := r.Scale(3, 40)
 	for round := 0; round < rounds && r.NumViolations() <= 4; round++ {
-		in := map[string]any{"topology": "client-websocket-server", "round": round, "concurrent_callers": callers, "request_bytes": "2048..16384"}
+		in := map[string]any{"topology": "client-websocket-server", "round": round, "concurrent_callers": callers, "request_bytes": fmt.Sprintf("%d..%d", minSize, maxSize)}
 		r.Progress("websocket", in)
 		reqs := make([][]byte, callers)
 		for i := range reqs {
-			b := make([]byte, 2048+rng.Intn(14*1024))
+			b := make([]byte, minSize+rng.Intn(maxSize-minSize+1))
 			rng.Read(b)
 			copy(b, fmt.Sprintf("ws-%04d-%04d-----", round, i)[:16])
 			reqs[i] = b
